@@ -193,6 +193,12 @@ func main() {
 						forms = []string{""} // the function is known and has no plain branch
 					}
 				}
+				if os.Getenv("ZCHECK_RETURNS") == "chans" {
+					forms = nil
+					if fn.Parent() == nil {
+						forms = chanMakes(r, fn)
+					}
+				}
 				if os.Getenv("ZCHECK_RETURNS") == "effects" {
 					forms = nil
 					for c := range r.mustPassEffects(fn) {
